@@ -30,8 +30,11 @@ def case_of(ctx, ops, i):
 
 
 def fingerprint(stream, clause):
-    # the concurrent clauses are about the index as well; F4's class has a stable name
-    return "index:%s" % clause if stream == "sched" else "%s:%s" % (stream, clause)
+    # stream:clause (the nopush clause carries the class of the missed change, e.g. index:nopush-sound:addresses);
+    # only F4's class keeps its stable, recorded name
+    if clause == "lost-update:unlink-inside-update-window":
+        return "index:" + clause
+    return "%s:%s" % (stream, clause)
 
 
 WHAT = {
@@ -43,26 +46,40 @@ WHAT = {
 
 
 def oracle(ctx, stream, case_lines, rep):
-    """Property-level search on the implementation: first the shrunk case, then everything generated."""
-    cands = []
+    """Property-level search on the implementation: the shrunk case first; then the generated case in which the
+    correspondence broke; only then every other generated case (marked as found elsewhere)."""
+    def verdicts_of(ops):
+        out = os.path.join(ctx.work, os.path.basename(ops) + ".verdict")
+        rc, log = ctx.harness("oracle", stream, ops, out)
+        if rc != 0 or not os.path.exists(out):
+            return []
+        return ctx.read_lines(out)
+
+    def found(ops, i, v, where):
+        clause = v.split()[1]
+        return (fingerprint(stream, clause),
+                WHAT.get(clause, "endpoint index (%s) violates clause '%s' on the real code" % (stream, clause)),
+                {"stream": stream, "ops": case_of(ctx, ops, i), "oracle_verdict": v, "failing_input_from": where,
+                 "correspondence": rep})
+
+    def failing(v):
+        return v.startswith("FAIL") and v.split()[1] != "delete-atomic"
+
     p = os.path.join(ctx.work, "%s.oracle.ops" % stream)
     with open(p, "w") as f:
         f.write("\n".join(case_lines) + "\n")
-    cands.append(p)
+    for i, v in enumerate(verdicts_of(p)):
+        if failing(v):
+            return found(p, i, v, "the shrunk mismatching case")
     g = os.path.join(ctx.work, "%s.gen.ops" % stream)
     if os.path.exists(g):
-        cands.append(g)
-    for ops in cands:
-        out = ops + ".verdict"
-        rc, log = ctx.harness("oracle", stream, ops, out)
-        if rc != 0 or not os.path.exists(out):
-            continue
-        for i, v in enumerate(ctx.read_lines(out)):
-            if v.startswith("FAIL") and v.split()[1] != "delete-atomic":
-                clause = v.split()[1]
-                return (fingerprint(stream, clause),
-                        WHAT.get(clause, "endpoint index (%s) violates clause '%s' on the real code" % (stream, clause)),
-                        {"stream": stream, "ops": case_of(ctx, ops, i), "oracle_verdict": v, "correspondence": rep})
+        vs = verdicts_of(g)
+        own = (rep or {}).get("case_no", 0) - 1 if (rep or {}).get("source") == "generated" else -1
+        if 0 <= own < len(vs) and failing(vs[own]):
+            return found(g, own, vs[own], "the generated case of the mismatch (unshrunk)")
+        for i, v in enumerate(vs):
+            if failing(v):
+                return found(g, i, v, "another generated case (case %d), not the one where the correspondence broke" % i)
     return None
 
 
